@@ -365,7 +365,7 @@ Print Assumptions C17_window_examples.
    the three _explicit theorems). *)
 From S4.Base Require Chunk.
 From S4.Model Require Lines Caches RetainCaches.
-From S4.Proofs Require CachesProofs RetainKeepsUp RetainNoErr RetainFar RetainFarFifo RetainFarConv RetainCachesAgree RetainCachesLayout.
+From S4.Proofs Require CachesProofs RetainKeepsUp RetainNoErr RetainFar RetainFarFifo RetainFarConv RetainFarExact RetainFarLayout RetainCachesAgree RetainCachesLayout.
 
 (* what "agree" says: the five counters of summary() equal the five marks, the three stores have
    the same sizes, and no release failed *)
@@ -642,6 +642,33 @@ Print Assumptions C17_far_excludes_reached_held.
 Theorem C17_reached_heldb_sound : forall lag ms, RetainFarConv.reached_heldb lag ms = true -> RetainFarConv.reached_held lag ms.
 Proof. exact RetainFarConv.reached_heldb_sound. Qed.
 Print Assumptions C17_reached_heldb_sound.
+
+(* EXACTNESS as one equivalence: for every well-formed message sequence with consecutive keys, either
+   policy, plain or streamed, every lag >= 1, the run with the consumer lag messages behind has NO failed
+   release if and only if no issued drop reaches a message found fewer than lag messages earlier *)
+Theorem C17_F9a_class_exact : forall bs span ml c lag ms, wf bs span ml ms -> 1 <= lag ->
+  map mkey ms = nseq 0 (length ms) ->
+  (derr (run c (init ms) (sched_lag lag (length ms))) = 0 <-> RetainFarConv.reached_heldb lag ms = false).
+Proof. exact RetainFarExact.no_err_iff_wf. Qed.
+Print Assumptions C17_F9a_class_exact.
+
+Theorem C17_reached_heldb_iff : forall lag ms, RetainFarConv.reached_heldb lag ms = true <-> RetainFarConv.reached_held lag ms.
+Proof. exact RetainFarExact.reached_heldb_iff. Qed.
+Print Assumptions C17_reached_heldb_iff.
+
+(* ... and for EVERY layout (lines of one byte or more, first line dated), every block size *)
+Theorem C17_F9a_class_exact_layout : forall bs layout c lag, layout_ok bs layout -> 1 <= lag ->
+  (derr (run_layout c bs layout lag) = 0 <-> RetainFarConv.reached_heldb lag (layout_msgs bs layout) = false).
+Proof. exact RetainFarLayout.layout_no_err_iff. Qed.
+Print Assumptions C17_F9a_class_exact_layout.
+
+Theorem C17_far_bounded_layout : forall bs layout c lag, pol c = P_cur -> layout_ok bs layout -> 1 <= lag ->
+  RetainFar.farb lag (layout_msgs bs layout) = true ->
+  let ms := layout_msgs bs layout in
+  let s := run_layout c bs layout lag in
+  derr s = 0 /\ hs s <= bound_syslines bs (max_span ms) /\ hl s <= bound_lines bs (max_span ms) (max_lines ms) lag.
+Proof. exact RetainFarLayout.layout_far_bounded. Qed.
+Print Assumptions C17_far_bounded_layout.
 
 Theorem C17_keeps_up_example :
   let ms := layout_msgs 64 ex_layout in
